@@ -92,7 +92,21 @@ type world struct {
 	freshNext  map[int]int
 	onlyNext   map[int]int
 	victimApex string
+
+	// focus scenarios: the long-leased sibling zone and its aliases
+	sib     *zm.Zone
+	aliases []aliasInfo
 }
+
+// aliasInfo is one CNAME of the sibling zone into the victim's zones.
+type aliasInfo struct {
+	Name   string // owner in the sibling zone
+	Target string
+	Shape  string // what the old child says about the target (AliasSpec.Targets)
+	Level  int    // level of the zone the target lives in
+}
+
+const sibApex = "sibz."
 
 func (w *world) vnow() time.Duration {
 	w.mu.Lock()
@@ -161,6 +175,12 @@ func buildWorld(sc *Scenario) *world {
 			}
 		}
 		u.Delegate(w.zones[j-1], w.zones[j], opts)
+		if l.DSKind != "" {
+			w.zones[j-1].SetDS(w.apex[j], w.dsFor(w.zones[j], l, 0), l.DSTTL)
+		}
+	}
+	if sc.Alias != nil {
+		w.addSibling(srv)
 	}
 	// old child behaviours
 	v := w.zones[sc.Victim]
@@ -238,11 +258,7 @@ func buildWorld(sc *Scenario) *world {
 			}
 			w.newTags[z.Apex()] = tags
 			if j > sc.Victim {
-				mode := l.Secure
-				var ds []dns.RR
-				if mode {
-					ds = z.DS(0)
-				}
+				ds := w.dsFor(z, l, 1)
 				w.newGen[j-1].Delegate(zm.DelegationSpec{Child: z.Apex(), NS: []zm.NSHost{host}, DS: ds, NSTTL: l.NSTTL, DSTTL: l.DSTTL, GlueTTL: l.NSTTL})
 			}
 		}
@@ -261,11 +277,99 @@ func (w *world) populate(z *zm.Zone, level int, newGen bool) {
 	for i := 0; i < nFresh; i++ {
 		z.AddMarked(fmt.Sprintf("f%d.%s", i, apex), dns.TypeA, sc.LongTTL)
 	}
+	if newGen && sc.Alias != nil && level == sc.Victim {
+		for i, shape := range sc.Alias.Targets {
+			if shape != "deep-positive" {
+				z.AddMarked(fmt.Sprintf("t%d.%s", i, apex), dns.TypeA, sc.LongTTL)
+			}
+		}
+	}
 	for i := 0; i < nOnly; i++ {
 		if newGen {
 			z.AddMarked(fmt.Sprintf("on%d.%s", i, apex), dns.TypeA, sc.LongTTL)
 		} else {
 			z.AddMarked(fmt.Sprintf("oo%d.%s", i, apex), dns.TypeA, sc.LongTTL)
+		}
+	}
+}
+
+// dsFor builds the DS RRset the parent publishes for zone z at a level with
+// spec l (TTLs are set by the delegation). gen distinguishes the records of
+// the old (0) and of the re-pointed (1) generation.
+func (w *world) dsFor(z *zm.Zone, l LevelSpec, gen byte) []dns.RR {
+	var out []dns.RR
+	if l.Secure {
+		out = z.DS(0)
+	}
+	if l.DSKind == "" {
+		return out
+	}
+	tag := uint16(4000) + uint16(gen)
+	if k := z.KSK(); k != nil {
+		tag = k.DNSKEY.KeyTag()
+	}
+	mk := func(alg, dt uint8, n int) dns.RR {
+		d := make([]byte, n)
+		for i := range d {
+			d[i] = byte(0xA0 + int(gen)*16 + i%16)
+		}
+		return &dns.DS{Hdr: dns.RR_Header{Name: z.Apex(), Rrtype: dns.TypeDS, Class: dns.ClassINET},
+			KeyTag: tag, Algorithm: alg, DigestType: dt, Digest: fmt.Sprintf("%X", d)}
+	}
+	// GOST R 34.11-94 digest of a key with a supported algorithm; a SHA-256
+	// digest of an ECC-GOST key; a digest type nobody has assigned
+	unusable := []dns.RR{mk(dns.ECDSAP256SHA256, dns.GOST94, 32), mk(dns.ECCGOST, dns.SHA256, 32), mk(dns.ECDSAP256SHA256, 200, 20)}
+	n := 1 + (w.sc.Index+int(gen))%len(unusable)
+	for i := 0; i < n; i++ {
+		out = append(out, unusable[(w.sc.Index+i)%len(unusable)])
+	}
+	return out
+}
+
+// addSibling creates the long-leased sibling zone with its aliases and
+// publishes the alias targets in the old zones; the old victim's servers
+// answer the "bare" targets with an empty NXDOMAIN / NOERROR message.
+func (w *world) addSibling(srv [][]*authsim.Server) {
+	sc, al := w.sc, w.sc.Alias
+	u := w.u
+	s := u.AddServer("SIB1")
+	w.sib = u.AddZone(zm.Spec{Apex: sibApex, Signed: al.Signed, DefaultTTL: al.CNAMETTL}, s)
+	mode := authsim.DSNone
+	if al.Signed {
+		mode = authsim.DSAuto
+	}
+	u.Delegate(w.zones[0], w.sib, authsim.DelegOpts{DS: mode, NSTTL: al.NSTTL, DSTTL: al.NSTTL, GlueTTL: al.NSTTL})
+	old := w.zones[sc.Victim]
+	for i, shape := range al.Targets {
+		a := aliasInfo{Name: fmt.Sprintf("al%d.%s", i, sibApex), Shape: shape, Level: sc.Victim}
+		a.Target = fmt.Sprintf("t%d.%s", i, w.victimApex)
+		switch shape {
+		case "positive":
+			old.AddMarked(a.Target, dns.TypeA, sc.LongTTL)
+		case "nodata-soa", "nodata-bare":
+			old.AddMarked(a.Target, dns.TypeTXT, sc.LongTTL)
+		case "deep-positive":
+			a.Level = w.depth()
+			a.Target = "www." + w.apex[a.Level]
+		}
+		w.sib.AddCNAME(a.Name, a.Target, al.CNAMETTL)
+		w.aliases = append(w.aliases, a)
+		if shape == "nxdomain-bare" || shape == "nodata-bare" {
+			rcode := dns.RcodeNameError
+			if shape == "nodata-bare" {
+				rcode = dns.RcodeSuccess
+			}
+			for _, os := range srv[sc.Victim] {
+				os.On(a.Target, 0, authsim.Tamper("bare-"+dns.RcodeToString[rcode], func(q, _ *dns.Msg) *dns.Msg {
+					m := new(dns.Msg)
+					m.SetRcode(q, rcode)
+					m.Authoritative = true
+					if opt := q.IsEdns0(); opt != nil {
+						m.SetEdns0(1232, opt.Do())
+					}
+					return m
+				}))
+			}
 		}
 	}
 }
@@ -587,16 +691,16 @@ func (w *world) change() {
 				}
 			}
 		}
-		var ds []dns.RR
-		if l.Secure {
-			ds = nz.DS(0)
-		}
+		ds := w.dsFor(nz, l, 1)
 		parent.Delegate(zm.DelegationSpec{Child: w.victimApex, NS: []zm.NSHost{host}, DS: ds, NSTTL: l.NSTTL, DSTTL: l.DSTTL, GlueTTL: l.NSTTL})
 		all := stable
 		for j := sc.Victim; j <= w.depth(); j++ {
 			all = append(all, w.newGen[j])
 		}
 		w.nsNew = zm.NewNamespace(all...)
+	}
+	if w.sib != nil {
+		w.nsNew.Add(w.sib)
 	}
 	if sc.NSChange {
 		// whatever the old child now says about itself must not matter
